@@ -92,6 +92,13 @@ CHECKS = {
          "etag and through load_latest_snapshot must return the payload, the full sibling, {} / not-loaded, or raise - never another dict.",
     note="Codec 'none' only (no zstandard); the codec law itself is input-quantified and evaluated on the generated pairs.",
     technique="deterministic simulation: baseline fault sequences (kill during write, removal, truncation, garbling) around the real writer/reader"),
+ "C14": dict(level="exploration", ref="4/C14",
+    text="Generated config trees (valid swarm + wrong types, NaN/inf, huge, empty containers, unknown and non-string keys) are written as YAML "
+         "to a scratch disk and validated through every API variant in-process and through the CLI in two other interpreters under other "
+         "PYTHONHASHSEED values (fresh and warm); verdicts and messages must agree, inputs stay untouched, and accepted configs must drive two turns.",
+    note="Only the cross-process/hash-seed agreement clause depends on something the simulator controls; totality, purity, ranges and "
+         "runnability are sampled over the generated inputs and claimed as such.",
+    technique="deterministic simulation (process/hash-seed axis): differential validation across API variants and CLI interpreters + execution of accepted configs"),
 }
 
 NA = {
